@@ -541,9 +541,14 @@ def init(table, reload=False):
     """
     if 'neutron' in table.properties and not reload:
         return
-    table.properties.append('neutron')
     assert ('density' in table.properties and 'mass' in table.properties), \
         "Neutron table requires mass and density properties"
+    table.properties.append('neutron')
+
+    # The class-level defaults below replace the delayed-load properties, so
+    # make sure the public table has been loaded through them first.
+    if table is not default_table():
+        getattr(default_table()[0], 'neutron', None)
 
     # Defaults for missing neutron information
     missing = Neutron()
